@@ -86,6 +86,9 @@ type thr struct {
 	intent   any
 	resp     Response
 	gen      int
+	cancel   context.CancelFunc
+	cancelled bool
+	floating bool // resumed while (possibly) blocked outside the scheduler's control: it reports back by itself
 }
 
 type note struct {
@@ -115,7 +118,7 @@ type Sched struct {
 
 	workerParked bool
 	workerBatch  []*ledger.ChainedLog
-	workerResume chan bool
+	workerResume chan int
 	pending      int
 	granted      map[any]bool
 
@@ -124,8 +127,12 @@ type Sched struct {
 	Fault     string // harness fault (timeouts): the execution is discarded, never reported as a violation
 	AllowFail bool   // enable persist_fail choices
 	AllowCrash bool  // enable crash choices
+	AllowCancel bool // enable cancellation of a request's context (at most MaxCancels times)
+	AllowFailCtx bool // enable a store failure whose error wraps context.Canceled
 	Crashes   int
 	MaxCrashes int
+	Cancels   int
+	MaxCancels int
 }
 
 var installOnce sync.Once
@@ -192,7 +199,7 @@ func (s *Sched) note(ctx context.Context, point string, kv ...any) {
 	s.mu.Unlock()
 }
 
-func (s *Sched) workerArrive(gen int, logs []*ledger.ChainedLog) bool {
+func (s *Sched) workerArrive(gen int, logs []*ledger.ChainedLog) int {
 	ids := ""
 	for i, l := range logs {
 		if i > 0 {
@@ -237,7 +244,7 @@ func (m monitor) DeletedMetadata(ctx context.Context, targetType string, targetI
 
 func New(disk *Disk, reqs []Req) *Sched {
 	installOnce.Do(func() { verifhook.SetHandler(handler) })
-	s := &Sched{notes: make(chan note, 64), Disk: disk, granted: map[any]bool{}, MaxCrashes: 1}
+	s := &Sched{notes: make(chan note, 64), Disk: disk, granted: map[any]bool{}, MaxCrashes: 1, MaxCancels: 1}
 	for i, r := range reqs {
 		s.threads = append(s.threads, &thr{id: i, req: r, resume: make(chan struct{})})
 	}
@@ -254,7 +261,7 @@ var compiler = command.NewCompiler(64)
 func (s *Sched) boot() {
 	s.Gen++
 	s.mu.Lock()
-	s.workerResume = make(chan bool)
+	s.workerResume = make(chan int)
 	s.workerParked, s.workerBatch, s.pending = false, nil, 0
 	s.mu.Unlock()
 	store := &Store{D: s.Disk, S: s, Gen: s.Gen}
@@ -414,12 +421,18 @@ func (s *Sched) Enabled() []Choice {
 			continue
 		}
 		alive = true
+		if t.floating {
+			continue
+		}
+		if s.AllowCancel && !t.cancelled && s.Cancels < s.MaxCancels {
+			cs = append(cs, Choice{"cancel", t.id})
+		}
 		switch t.parkedAt {
 		case "lock.enqueued":
 			s.mu.Lock()
 			g := s.granted[t.intent]
 			s.mu.Unlock()
-			if g {
+			if g || t.cancelled {
 				cs = append(cs, Choice{"resume", t.id})
 			}
 		case "append.enter":
@@ -428,7 +441,9 @@ func (s *Sched) Enabled() []Choice {
 				cs = append(cs, Choice{"resume", t.id})
 			}
 		case "wait":
-			if t.kv["dry"] == "true" || s.persisted(t.kv["id"]) {
+			// a cancelled request may be resumed before its entry is persisted: the unchanged code blocks on the
+			// persistence signal all the same (the thread then "floats" until it reports back by itself)
+			if t.kv["dry"] == "true" || s.persisted(t.kv["id"]) || t.cancelled {
 				cs = append(cs, Choice{"resume", t.id})
 			}
 		default:
@@ -439,6 +454,9 @@ func (s *Sched) Enabled() []Choice {
 		cs = append(cs, Choice{"persist_ok", -1})
 		if s.AllowFail && s.Crashes < s.MaxCrashes {
 			cs = append(cs, Choice{"persist_fail", -1})
+		}
+		if s.AllowFailCtx && s.Crashes < s.MaxCrashes {
+			cs = append(cs, Choice{"persist_fail_ctx", -1})
 		}
 	}
 	if s.AllowCrash && s.Crashes < s.MaxCrashes && (alive || s.workerParked) {
@@ -458,6 +476,10 @@ func (s *Sched) record(n note) {
 // the worker reaches InsertLogs whenever logs are pending and it is free.
 func (s *Sched) settle(expectTid int) {
 	waitingThread := expectTid >= 0
+	grace := 5 * time.Second
+	if expectTid >= 0 && s.threads[expectTid].cancelled && s.threads[expectTid].parkedAt == "wait" {
+		grace = 60 * time.Millisecond // it may legitimately block on the persistence signal
+	}
 	for {
 		needWorker := !s.workerParked && s.pending > 0
 		if !waitingThread && !needWorker {
@@ -473,7 +495,12 @@ func (s *Sched) settle(expectTid int) {
 		select {
 		case n := <-s.notes:
 			s.absorb(n, &waitingThread, expectTid)
-		case <-time.After(5 * time.Second):
+		case <-time.After(grace):
+			if waitingThread && grace < time.Second {
+				s.threads[expectTid].floating = true
+				waitingThread = false
+				continue
+			}
 			s.Fault = fmt.Sprintf("timeout waiting for thread=%v worker=%v", waitingThread, needWorker)
 			return
 		}
@@ -492,6 +519,7 @@ func (s *Sched) absorb(n note, waitingThread *bool, expectTid int) {
 		return
 	}
 	t := s.threads[n.tid]
+	t.floating = false
 	if n.finish {
 		t.finished = true
 	} else {
@@ -515,7 +543,9 @@ func (s *Sched) Do(c Choice) {
 	case "start":
 		t := s.threads[c.Tid]
 		t.started, t.gen = true, s.Gen
-		ctx := context.WithValue(context.WithValue(context.Background(), tidKey, t.id), genKey, s.Gen)
+		base, cancel := context.WithCancel(context.Background())
+		t.cancel = cancel
+		ctx := context.WithValue(context.WithValue(base, tidKey, t.id), genKey, s.Gen)
 		cmd, gen := s.cmd, s.Gen
 		go func() {
 			resp := s.call(ctx, cmd, t.req)
@@ -530,7 +560,7 @@ func (s *Sched) Do(c Choice) {
 		s.settle(t.id)
 	case "persist_ok":
 		s.workerParked = false
-		s.workerResume <- true
+		s.workerResume <- 1
 		// the worker writes to the disk after being resumed: wait until the batch is visible
 		want := s.workerBatch
 		deadline := time.Now().Add(5 * time.Second)
@@ -546,9 +576,48 @@ func (s *Sched) Do(c Choice) {
 			time.Sleep(20 * time.Microsecond)
 		}
 		s.settle(-1)
+		for _, t := range s.threads {
+			if t.floating && t.gen == s.Gen && s.persisted(t.kv["id"]) {
+				s.settle(t.id)
+			}
+		}
+	case "cancel":
+		t := s.threads[c.Tid]
+		t.cancelled = true
+		s.Cancels++
+		t.cancel()
 	case "persist_fail":
 		s.workerParked = false
-		s.workerResume <- false
+		s.workerResume <- 0
+		s.crash()
+	case "persist_fail_ctx":
+		// the store fails with an error of kind context.Canceled: the unchanged runner dies like for any other
+		// store failure; give a wrongly surviving runner a moment to acknowledge before the generation is abandoned
+		s.workerParked = false
+		s.workerResume <- 2
+		s.pending = 0 // the runner is expected to die: do not wait for it to take another batch
+		deadline := time.Now().Add(300 * time.Millisecond)
+		for time.Now().Before(deadline) {
+			select {
+			case n := <-s.notes:
+				w := false
+				s.absorb(n, &w, -2)
+			default:
+				time.Sleep(2 * time.Millisecond)
+			}
+		}
+		for _, t := range s.threads {
+			if t.started && !t.finished && t.gen == s.Gen && t.parkedAt == "wait" && !t.floating {
+				// probe: does the request get past its wait although nothing was persisted?
+				t.cancelled = true // reuse the tolerant resume
+				t.resume <- struct{}{}
+				s.settle(t.id)
+				for !t.finished && !t.floating && s.Fault == "" {
+					t.resume <- struct{}{}
+					s.settle(t.id)
+				}
+			}
+		}
 		s.crash()
 	case "crash":
 		s.crash()
